@@ -153,6 +153,9 @@ func c18Gen(r *Rng, id int) lHist {
 		case x < 99:
 			return lOp{Op: "f_dump", U: u, Pool: r.Intn(2), Dir: r.Intn(2), Rel: r.Intn(6)}
 		default:
+			if r.Chance(50) {
+				return lOp{Op: "f_lopsided", Dir: r.Intn(3)}
+			}
 			return lOp{Op: "f_rmentry", Dir: r.Intn(3)}
 		}
 	}
@@ -611,6 +614,14 @@ func (c *c18Run) fault(op lOp) {
 			return w.Deliver(&ammtypes.MsgSwapExactAmountIn{Sender: u, Routes: []ammtypes.SwapAmountInRoute{{PoolId: c.x.poolID(op.Pool), TokenOutDenom: b}},
 				TokenIn: sdk.NewCoin(a, v), TokenOutMinAmount: I(1), Recipient: u}), v.BigInt()
 		})
+	case "f_lopsided":
+		// an allow-listed pool creator creates a second uelys/uusdc pool that is worth more than the regular one at oracle
+		// prices (so price estimation picks it) but prices ELYS at almost nothing: the Eden price rounds to zero at 10^-18
+		assets := []ammtypes.PoolAsset{
+			{Token: sdk.NewCoin(ELYS, I(900_000_000_000)), Weight: I(1), ExternalLiquidityRatio: dec("1")},
+			{Token: sdk.NewCoin(USDC, I([]int64{1000, 1, 1000000}[op.Dir%3])), Weight: I([]int64{1000000, 1000000, 1}[op.Dir%3]), ExternalLiquidityRatio: dec("1")},
+		}
+		c.tx(op.Op, one(&ammtypes.MsgCreatePool{Sender: c.m.Users[0].String(), PoolParams: ammtypes.PoolParams{SwapFee: dec("0.003"), UseOracle: false, FeeDenom: USDC}, PoolAssets: assets}))
 	case "f_rmentry":
 		d := []string{USDC, ATOM, ELYS}[op.Dir%3]
 		c.tx(op.Op, one(&aptypes.MsgDeleteEntry{Authority: gov, BaseDenom: d}))
@@ -778,6 +789,8 @@ func c18RunHistory(t *testing.T, col *Collector, table []c18Blk, h lHist) {
 
 func c18Corpus() []lHist {
 	return []lHist{
+		{Ops: []lOp{ // (fixed) an Eden price that rounds to zero made masterchef return "invalid eden price" to baseapp
+			{Op: "f_lopsided", Dir: 0}, {Op: "blocks", N: 2, DT: 5}}},
 		{Ops: []lOp{ // stakers' portion 0: CollectDEXRevenue subtracts the provider portion from an empty coin set
 			{Op: "f_param", Idx: 1}, {Op: "swap_in", U: 1, V: 1, Pool: 1, Dir: 0, Amt: "1000000000"}, {Op: "blocks", N: 2, DT: 5}}},
 		{Ops: []lOp{ // provider portion 2 (> 1 passes Validate): gas fees in the fee collector
